@@ -14,6 +14,8 @@ def before_diff(c):
          re.search(r"if a\.exitHandler != nil \{\s*ctx := context\.Background\(\)[^}]*a\.exitHandler\.HandleStreamOpen\(", ag, re.S)),
         ("config routes become local routes of the manager whether or not the exit is enabled",
          re.search(r"for _, route := range a\.cfg\.Exit\.Routes \{\s*network := routing\.MustParseCIDR\(route\)\s*a\.routeMgr\.AddLocalRoute\(network, 0\)", ag)),
+        ("peer-disconnect clean-up = the four routeMgr.HandlePeerDisconnect* calls the harness accessor replays",
+         re.search(r"a\.cleanupRelaysForPeer\(peerID\)\s*(//[^\n]*\n\s*)*a\.routeMgr\.HandlePeerDisconnect\(peerID\)\s*a\.routeMgr\.HandlePeerDisconnectDomain\(peerID\)\s*a\.routeMgr\.HandlePeerDisconnectForward\(peerID\)\s*a\.routeMgr\.HandlePeerDisconnectAgent\(peerID\)", ag)),
     ]
     for name, ok in facts:
         c.oblige("source-fact: " + name, "tie", bool(ok), "" if ok else "pattern not found in the current source")
@@ -36,7 +38,8 @@ PROP = dict(
     timeout=1800,
     rule="case = a real Agent (agent.New) with generated exit config (enabled?, 0-3 networks, 0-3 domain patterns) + a history of 4-14 (10%: 40-80) ops over a 3-network working set: "
          "ManageRoute add (metrics 0,1,5,7,65535; re-adds/updates frequent)/remove, opens (IPv4, IPv6, IPv4-mapped literals; names resolved through the handler's cache) dialled for real to loopback listeners, "
-         "state dumps (dynamic routes + allow list); networks: nested/overlapping 127/8 nets, non-canonical host bits, IPv4-mapped spellings incl. ::ffff:0:0/96, ::1/128, ::/0, off-host nets; "
+         "state dumps (dynamic routes + allow list); between ManageRoute calls the routing table is perturbed the way mesh traffic can: ROUTE_WITHDRAW / ROUTE_ADVERTISE frames from peers through Agent.processFrame "
+         "(naming this agent or a peer as origin), peer-disconnect clean-up, stale expiry; every add/remove answer carries the manager's own dynamic-route list and the spec judges dials and the allow list against THAT list whatever the API answered; networks: nested/overlapping 127/8 nets, non-canonical host bits, IPv4-mapped spellings incl. ::ffff:0:0/96, ::1/128, ::/0, off-host nets; "
          "non-trivial = a dial happened, a route op succeeded/was refused, or a state dump",
     nontrivial=lambda op, out: not op.startswith("reset") and out != "denied",
     trusted_base=[
